@@ -132,15 +132,23 @@ def rx_seq(rng):
         orders = rng.sample(range(0, 40), nrules)
         rs = []
         for o in orders:
+            # a third of the expressions may match the empty string (optional groups, `*`, anchors alone): an empty leftmost
+            # match is a match for replaceFirst / ReplaceAllString, but not for an ignore rule
+            want_nullable = rng.random() < 0.33
             for _try in range(20):
                 groups = [0]
                 go, post, nullable, _atomic = gen_re(rng, rng.choice([1, 2, 2, 3]), groups)
-                if not nullable:
+                if nullable == want_nullable or (want_nullable and _try > 8):
                     break
             else:
                 go, post, groups = "a", ["c61"], [0]
             anch = rng.random()
-            if anch < 0.15:
+            if want_nullable and anch < 0.25:
+                go, post, groups = rng.choice([("^", ["B"]), ("$", ["E"]), ("^$", ["B", "E", "S"]), ("/?$", ["c2f", "O", "E", "S"]),
+                                               ("^(a)?", ["B", "c61", "g1", "O", "S"])]) + ([0],)
+                if go == "^(a)?":
+                    groups = [1]
+            elif anch < 0.15:
                 go, post = "^" + go, ["B"] + post + ["S"]
             elif anch < 0.3:
                 go, post = go + "$", post + ["E", "S"]
